@@ -129,6 +129,8 @@ class SchedLock:
             self.depth += 1
             return True
         s.yield_point()
+        if not blocking and self.owner is not None and not (self.reentrant and self.owner == me):
+            return False  # non-blocking attempt on a held lock, like threading.Lock.acquire(blocking=False)
         while self.owner is not None and not (self.reentrant and self.owner == me):
             s.contention += 1
             s.state[me] = "blocked"
